@@ -253,6 +253,7 @@ def order(F, res):
         raise BrokenCheck("StructConstructor::into_lower no longer builds a StructExpr")
     key = f["path"] + "|constructor = case position"
     good = False
+    other = []
     for bi, s in aggs:
         rv = s["rv"]
         o = mir.provenance(f, du, rv["ops"][rv["fields"].index("constructor")], transparent_extra=("std::option::Option::<T>::ok_or", "std::option::Option::<T>::ok_or_else"))
@@ -260,13 +261,23 @@ def order(F, res):
         # (historically TypeDef::find_case_index) whose own body is that search
         for x in o:
             if x.kind != "call":
+                # a constant (or anything else) next to the search: some cases get an index that is not their position
+                # (`if case.name == "Default" { 0 } else { find_case_index(..) }`)
+                if x.kind == "const" and "int" in (x.const or {}):
+                    other.append("the constant %s" % x.const["int"])
+                elif x.kind not in ("agg",):
+                    other.append(repr(x)[:40])
                 continue
             if x.callee.endswith("Iterator::position") or x.callee.endswith("::position"):
                 good = True
             elif x.callee in F.fns and F.fns[x.callee]["crate"] == "tx3_lang":
                 if any((t.get("callee") or "").endswith("Iterator::position") or (t.get("resolved") or "").endswith("::position") for b in with_closures(F, F.fns[x.callee]) for _, t in mir.calls(b)):
                     good = True
-    if good:
+                else:
+                    other.append("`%s`" % x.callee.split("::")[-1])
+    if good and other:
+        res.add([finding("ORDER", key, w, "the constructor index is the position of the case in the type definition on some paths only; on others it is %s: a case at another position is encoded under a wrong constructor tag" % ", ".join(sorted(set(other))))])
+    elif good:
         res.add([ok("ORDER", key, w, "constructor = type_def.find_case_index(case) = position in cases")])
     else:
         res.add([finding("ORDER", key, w, "the constructor index is not the position of the case in the type definition")])
